@@ -31,6 +31,26 @@ CHECKS = {
     note=TB + " Objects built with _ignore_nsp for an already-gone PID are outside the == clause."),
 }
 
+SM = "TLA+ model checking (TLC) + transition-tour / simulation replay into the real code over a simulated kernel"
+CHECKS["C04"] = dict(technique=SM, category="model_checking", ref="DESIGN.md section 3 C04",
+    text=("ProcIter.tla models pids(), pid_exists() and the process_iter() generator at the granularity of one next() "
+          "(listing, diff, drain of _pids_reused, visit, swallow of vanished PIDs, finally write-back), cache_clear(), "
+          "is_running() on every object ever yielded or built, threads, and 1-2 live iterators. TLC checks order, "
+          "completeness, object identity against a ghost cache, key eviction and pid_exists truth on every transition "
+          "(1.2M-3M states quick); the real generator is driven through a full transition tour of a 1-PID model, sampled "
+          "tours of 2-PID / 2-iterator models and random 3-PID behaviours, comparing yielded pid, object identity (is), "
+          "info dict, StopIteration point, pids(), pid_exists() for PIDs, TIDs, negatives and integers beyond pid_t."),
+    note=TB + " Object identity is only demanded in the non-overlapping regime (stated in DESIGN.md). Known finding C04-reused-skipped is signed.")
+CHECKS["C10"] = dict(technique=SM, category="model_checking", ref="DESIGN.md section 3 C10",
+    text=("WrapNumbers.tla models the kernel's per-device counters, the public net_io_counters/disk_io_counters wrappers "
+          "(forms, nowrap flag, partition filter, empty listing) and _WrapNumbers' cache/reminders; a ghost carries what the "
+          "statement demands (raw + sum of values before each observed decrease, history reset by observed absence or "
+          "cache_clear). TLC checks res = exp on every call for all histories up to 4 (thorough 5) calls over 2 functions x 2 "
+          "keys; the real functions are bound by full transition tours of four narrow-but-deep models (up to 8 calls), "
+          "and by random 40-step behaviours with 2 fields, over rendered /proc/net/dev, /proc/diskstats and /sys/block with "
+          "per-column scales up to 2^64/64."),
+    note=TB + " Known finding C10-form-switch is signed; the two-thread clause is checked at call granularity only (lock-removal mutants need the line scheduler, see DESIGN.md).")
+
 PENDING = "check under construction in this round (see DESIGN.md section 6 work order)"
 NA = {}
 
